@@ -32,6 +32,11 @@ func cmdWorld(prop string, seed uint64, n int, steps int, out string) {
 		base := NewLogBase()
 		opts := WorldOpts{Addr: 1 + uint64(hr.Intn(2)), MaxDepth: 1 + hr.Intn(3), Wrap: hr.Bool(), Maps: true,
 			Detach: prop == "C11" || hr.Chance(30), LargeVals: hr.Chance(60), PopChild: true}
+		if hr.Chance(35) {
+			// real pooled digester with first-level digests folded into a small alphabet (top-level maps only)
+			mod := uint64(2 + hr.Intn(12))
+			opts.RootDigester = func() atree.DigesterBuilder { return newCollideL0Builder(mod) }
+		}
 		w := NewWorld(base, hr, opts, rep)
 		step := 0
 		failed := false
